@@ -19,40 +19,44 @@ Definition closed_phase (p : phase) : bool :=
 
 (* sn = the closer has taken its snapshot, dc = it has disconnected the snapshot,
    pu = Wait has returned and no spawned handler was unstarted at that moment *)
-Definition conn_ok (sn dc pu : bool) (c : conn) : bool :=
+(* part 1 — closing: depends on the phase, [c_closed], [c_insnap] only *)
+Definition conn_ok1 (sn dc pu : bool) (c : conn) : bool :=
   imp (closed_phase (c_phase c)) (c_closed c) &&
   imp (sn && phase_eqb (c_phase c) PServing) (c_insnap c) &&
   imp (dc && c_insnap c) (c_closed c) &&
-  imp (phase_eqb (c_phase c) PServing && c_closed c) (c_disc c) &&
-  imp (phase_eqb (c_phase c) PDone && c_connack c && negb (c_left c)) (c_disc c) &&
-  imp (c_connack c) (phase_eqb (c_phase c) PServing || phase_eqb (c_phase c) PDone) &&
-  imp (negb (c_insnap c)) true &&
   imp pu (negb (live c)).
 
-(* enumeration over the phase and the flags of the connection; the invariant does not mention
-   [c_sent], which stays a variable *)
-Ltac crush_conn :=
-  intros;
-  repeat match goal with
-         | c : conn |- _ =>
-             let se := fresh "se" in
-             destruct c as [? [] [] [] [] [] [] se];
-             assert (se = se) by reflexivity
-         | b : bool |- _ =>
-             lazymatch goal with
-             | _ : b = b |- _ => fail
-             | _ => destruct b
-             end
-         end;
+(* part 2 — what the client was sent: depends on the phase, [c_closed], [c_left], [c_connack],
+   [c_disc], [c_wfail] only.  A connected client that the broker closed was sent the DISCONNECT
+   unless the write failed. *)
+Definition conn_ok2 (c : conn) : bool :=
+  imp (phase_eqb (c_phase c) PServing && c_closed c) (c_disc c || c_wfail c) &&
+  imp (phase_eqb (c_phase c) PDone && c_connack c && negb (c_left c)) (c_disc c || c_wfail c) &&
+  imp (c_connack c) (phase_eqb (c_phase c) PServing || phase_eqb (c_phase c) PDone).
+
+Definition conn_ok (sn dc pu : bool) (c : conn) : bool := conn_ok1 sn dc pu c && conn_ok2 c.
+
+(* enumeration: each part is checked separately; only the phase is split at once, then the fields
+   and parameters that the goal at hand really depends on *)
+Ltac crush_part :=
+  lazymatch goal with
+  | |- conn_ok1 _ _ _ _ = true => repeat match goal with H : conn_ok2 _ = true |- _ => clear H end
+  | |- conn_ok2 _ = true => repeat match goal with H : conn_ok1 _ _ _ _ = true |- _ => clear H end
+  | _ => repeat match goal with H : conn_ok2 _ = true |- _ => clear H end
+  end;
+  repeat match goal with c : conn |- _ => destruct c as [? [] ? ? ? ? ? ? ? ?] end;
+  cbn in *; try discriminate;
+  repeat match goal with b : bool |- _ => clear b end;
+  repeat match goal with b : bool |- _ => destruct b end;
+  try reflexivity; try discriminate;
+  try (exfalso; match goal with H : _ = true |- _ => vm_compute in H; discriminate H end);
   cbn in *; try reflexivity; try discriminate.
 
-Ltac crush_conn_all :=
-  intros;
-  repeat match goal with
-         | c : conn |- _ => destruct c as [? [] [] [] [] [] [] []]
-         | b : bool |- _ => destruct b
-         end;
-  cbn in *; try reflexivity; try discriminate.
+Ltac crush_conn :=
+  intros; unfold conn_ok in *;
+  repeat match goal with H : _ && _ = true |- _ => apply andb_prop in H; destruct H end;
+  try (apply andb_true_intro; split);
+  crush_part.
 
 Lemma ok_weaken sn dc c : conn_ok sn dc true c = true -> conn_ok sn dc false c = true.
 Proof. crush_conn. Qed.
@@ -66,7 +70,7 @@ Proof. crush_conn. Qed.
 Lemma ok_snapshot pu c : conn_ok false false pu c = true -> conn_ok true false pu (take_snapshot c) = true.
 Proof. crush_conn. Qed.
 
-Lemma ok_disconnect pu c : conn_ok true false pu c = true -> conn_ok true true pu (disconnect c) = true.
+Lemma ok_disconnect pu c : conn_ok true false pu c = true -> conn_ok true true pu (disconnect Current c) = true.
 Proof. crush_conn. Qed.
 
 Lemma ok_reset sn dc pu c : conn_ok sn dc pu c = true -> conn_ok sn dc pu (reset_pending c) = true.
@@ -132,14 +136,15 @@ Proof. crush_conn. Qed.
 (* what the invariant says about a connection once the closer has disconnected its snapshot *)
 Lemma ok_counted_not_quiet pu c :
   conn_ok true true pu c = true -> counted c = true -> handler_quiet c = true -> silent c = false -> False.
-Proof. crush_conn_all. Qed.
+Proof. crush_conn. Qed.
 
 Lemma ok_quiet_closed pu c :
-  conn_ok true true pu c = true -> handler_quiet c = true -> silent c = false ->
+  conn_ok true true pu c = true -> handler_quiet c = true -> silent c = false -> undelivered c = false ->
   c_phase c <> PPending -> c_phase c <> PCur ->
   conn_closed_ok c = true /\ live c = false.
 Proof.
-  intros; destruct c as [v [] [] [] [] [] [] []]; destruct pu; cbn in *;
+  intros; destruct c as [v [] [] [] [] [] [] [] [] []]; destruct pu;
+    unfold conn_closed_ok, undelivered, owed_disconnect in *; cbn in *;
     try discriminate; try congruence; split; try reflexivity;
-    destruct (v =? 5)%N; reflexivity.
+    destruct (v =? 5)%N; cbn in *; try reflexivity; try discriminate.
 Qed.
